@@ -222,6 +222,7 @@ class Model:
         self.order = []                 # registration order of task ids (for dump order)
         self.frozen = False
         self.wrap = {}                  # label -> key: the tree of that root lives in root[key] (World.wrap)
+        self.funcs = {"add3": "add3", "lin": "lin", "mix": "mix", "vsum": "vsum"}   # slot of the function container -> implementation
 
     def pfx(self, path):
         """Declared-dependency locations of an access path (see prefixes); below a rebound label
@@ -249,6 +250,7 @@ class Model:
         m.order = list(self.order)
         m.frozen = self.frozen
         m.wrap = self.wrap
+        m.funcs = dict(self.funcs)
         return m
 
     def adopt(self, other):
@@ -315,6 +317,15 @@ class Model:
         return True
 
     # ---- public task graph G (declared sets) ---------------------------
+    def tid_str(self, tid):
+        """printed form of a task id: expression tasks and function tasks registered under a reference print as that
+        reference, the others as their string id"""
+        if tid[0] == "e":
+            return path_str(tid[1])
+        if tid[0] == "f" and self.ftasks[tid[1]].get("reftid"):
+            return path_str(self.ftasks[tid[1]]["targets"][0])
+        return "%s:%s" % (tid[0], tid[1])
+
     def tasks_decl(self):
         """taskid -> (deps set, targets set) in declared (prefix-closed) form.
         taskid = ('e', path) | ('f', name) | ('k', name)"""
@@ -421,7 +432,7 @@ class Model:
             kw = {k: self._ev(a, get) for k, a in ast[3]}
             if ast[1] == "vsum":
                 return _vsum_model(args[0])
-            return FUNCS[ast[1]](*args, **kw)
+            return FUNCS[self.funcs[ast[1]]](*args, **kw)
         raise AssertionError(ast)
 
     def evaluate(self, trig_knobs=()):
@@ -580,12 +591,29 @@ def _free_leaf(m, p):
         raise ModelReject("location is the target of a function/knob task")
 
 
+def _claim_leaf(m, path):
+    """Precondition of an assignment to `path`.  If a function task is registered under this very reference (its task
+    id is the reference of its first target), the assignment removes that task first - exactly as it removes an
+    expression; its targets keep the values they hold."""
+    if path in m.ft_target:
+        name, j = m.ft_target[path]
+        ft = m.ftasks[name]
+        if ft.get("reftid") and j == 0:
+            cur, _ = m.evaluate(())
+            for t in ft["targets"]:
+                m.val[t] = cur[t]
+                del m.ft_target[t]
+            del m.ftasks[name]
+            m.order.remove(("f", name))
+    _free_leaf(m, path)
+
+
 def _apply(m, op):
     """Mutate model m by op; return list of start locations for propagation, or None."""
     kind = op[0]
     if kind == "setv":
         _, path, value = op[:3]
-        _free_leaf(m, path)
+        _claim_leaf(m, path)
         if path in m.defs:
             del m.defs[path]
             m.order.remove(("e", path))
@@ -593,7 +621,7 @@ def _apply(m, op):
         return m.pfx(path)
     if kind == "sete":
         _, path, ast = op[:3]
-        _free_leaf(m, path)
+        _claim_leaf(m, path)
         _check_ast(m, ast)
         if path in m.defs:
             m.order.remove(("e", path))
@@ -602,7 +630,7 @@ def _apply(m, op):
         return m.pfx(path)
     if kind == "inpl":
         _, path, o, operand = op[:4]
-        _free_leaf(m, path)
+        _claim_leaf(m, path)
         if path in m.defs:
             return _apply(m, ("sete", path, ("bin", o, m.defs[path], operand)))
         if operand[0] == "lit":
@@ -659,7 +687,8 @@ def _apply(m, op):
         for d in deps:
             if d not in m.spec.leaf_type:
                 raise ModelReject("dep not a leaf")
-        m.ftasks[name] = {"deps": tuple(deps), "targets": tuple(targets), "coefs": coefs}
+        m.ftasks[name] = {"deps": tuple(deps), "targets": tuple(targets), "coefs": coefs,
+                          "reftid": bool(op[5]) if len(op) > 5 else False}
         for j, t in enumerate(targets):
             m.ft_target[t] = (name, j)
         m.order.append(("f", name))
@@ -707,6 +736,13 @@ def _apply(m, op):
         del m.knobs[name]
         m.order.remove(("k", name))
         return None
+    if kind == "setfunc":
+        from ..containers import SLOTS
+        _, slot, impl = op[:3]
+        if not m.spec.funcs or slot not in SLOTS or impl not in SLOTS[slot] or slot == "vsum":
+            raise ModelReject("no such function slot")
+        m.funcs[slot] = impl
+        return [("f", ("a", slot))]
     if kind in ("load", "copyfrom"):
         _, pairs, overwrite = op[:3]
         if not pairs:
